@@ -49,8 +49,12 @@ def pickb(b):
     return True if b else False
 
 
+DONE_COUNT = [0]
+
+
 def done(ok):
     """Every harness returns through done() at its real end; the twin refutes there."""
+    DONE_COUNT[0] += 1
     if TWIN:
         return False
     return True if ok else False
